@@ -465,12 +465,125 @@ func c03Generate(e *c03Env, rnd *vh.Rand) error {
 		}
 	}
 	lap("E special ids")
+	// F. substitution: the answer to a request is a VALID object of a different chunk.  On the
+	// casync protocol the answer carries a chunk id: labelled with its own id / with the requested
+	// id / with a third id / all-zero, from (a) the real ProtocolServer (in-process and as a
+	// RemoteSSH child) over a store that derives ids from its content, also behind desync's HTTP
+	// handler, and (b) a scripted peer; bare and behind cache / dedup / router / failover / swap.
+	wraps := []func(n *c03Node) *c03Node{
+		func(n *c03Node) *c03Node { return n },
+		func(n *c03Node) *c03Node { return g.wrap("cache", n, g.leaf("local", g.rnd.Bool(), false)) },
+		func(n *c03Node) *c03Node { return g.wrap("dedup", g.wrap("router", g.wrap("failover", n))) },
+		func(n *c03Node) *c03Node {
+			return g.wrap("cache", g.wrap("dedup", g.wrap("router", g.wrap("failover", n, g.leaf("local", false, false)))),
+				g.wrap("repair", g.leaf("local", g.rnd.Bool(), false)))
+		},
+		func(n *c03Node) *c03Node { return g.wrap("swap", n) },
+	}
+	pickWraps := func() []int {
+		if thorough {
+			return []int{0, 1, 2, 3, 4}
+		}
+		return []int{0, 1 + g.rnd.Intn(4)}
+	}
+	foreign := func() *c03Node { g.nk++; return &c03Node{T: "foreign", K: g.nk - 1} }
+	for front := 0; front < 4; front++ {
+		for _, plant := range []string{"good", "other-chunk", "other-same-size", "other-zstd", "garbage", "empty", "missing"} {
+			for _, wi := range pickWraps() {
+				g.reset()
+				digest := g.setDigest()
+				var st *c03Node
+				switch front {
+				case 0:
+					st = g.wrap("proto", foreign())
+				case 1:
+					if e.fakeSSH == "" || e.self == "" {
+						continue
+					}
+					g.nk++
+					st = &c03Node{T: "sshf", K: g.nk - 1, Hop: g.nh}
+					g.nh++
+				case 2:
+					st = g.wrap("http", foreign())
+					st.SComp = true
+				case 3:
+					st = g.wrap("http", foreign())
+					st.Unc = true
+				}
+				target := st.K
+				if len(st.Kids) > 0 {
+					target = st.Kids[0].K
+				}
+				st = wraps[wi](st)
+				d, d2 := g.chunkPair()
+				c := g.mk(fmt.Sprintf("subst/foreign/%d/%s/w%d", front, plant, wi), digest, st, d, d2, func(l c03Leaf) string {
+					if l.k == target {
+						return plant
+					}
+					return "missing"
+				}, nil)
+				if err := g.run(c); err != nil {
+					return err
+				}
+			}
+		}
+	}
+	for _, payload := range []string{"other", "other-same-size", "requested", "raw", "garbage"} {
+		for _, label := range []string{"own", "requested", "third", "zero"} {
+			for _, have := range []string{"good", "missing"} {
+				for _, wi := range pickWraps() {
+					g.reset()
+					digest := g.setDigest()
+					d, d2 := g.chunkPair()
+					d3 := append([]byte{0x33}, d2...)
+					inner := g.leaf("local", g.rnd.Bool(), g.rnd.Bool())
+					pr := g.wrap("proto", inner)
+					st := wraps[wi](pr)
+					var body, data []byte
+					switch payload {
+					case "other":
+						data = d2
+						body = c03Enc(d2, false)
+					case "other-same-size":
+						data = append([]byte{}, d...)
+						data[g.rnd.Intn(len(data))] ^= 0x10
+						body = c03Enc(data, false)
+					case "requested":
+						data = d
+						body = c03Enc(d, false)
+					case "raw":
+						data = d2
+						body = d2
+					case "garbage":
+						data = g.rnd.Bytes(1 + g.rnd.Intn(40))
+						body = data
+					}
+					lbl := map[string]string{"own": c03ID(data), "requested": c03ID(d), "third": c03ID(d3), "zero": hex.EncodeToString(make([]byte, 32))}[label]
+					c := g.mk(fmt.Sprintf("subst/peer/%s/label-%s/%s/w%d", payload, label, have, wi), digest, st, d, d2, func(l c03Leaf) string {
+						if l.k == inner.K {
+							return have
+						}
+						return "missing"
+					}, nil)
+					c.Faults = append(c.Faults, c03Fault{T: "N", K: pr.Hop, ID: c03ID(d), From: 0, To: 1 + g.rnd.Intn(3), F: "rs", Arg: vh.Hex(body), Lbl: lbl})
+					if err := g.run(c); err != nil {
+						return err
+					}
+				}
+			}
+		}
+	}
+	lap("F substitution")
 	return nil
 }
 
 // randStack draws a random stack of at most the given depth.
 func (g *c03Gen) randStack(depth int, leafKinds []string) *c03Node {
 	skip := g.rnd.Chance(1, 8)
+	if g.rnd.Chance(1, 14) { // a content-trusting store from outside desync
+		g.nk++
+		return &c03Node{T: "foreign", K: g.nk - 1}
+	}
 	if depth <= 1 {
 		return g.leaf(leafKinds[g.rnd.Intn(len(leafKinds))], g.rnd.Bool(), skip)
 	}
